@@ -35,33 +35,44 @@ type c15Fail struct {
 	name, src string
 	parse     bool
 	multiline bool // failing tag spans lines: N within its extent
+	exact     int  // >0: N must be exactly (first line of src) + exact - 1 (the line on which the failing tag begins)
 }
 
 var c15Fails = []c15Fail{
-	{"unknown-ident", `<%= nope %>`, false, false},
-	{"failing-helper", `<%= fail() %>`, false, false},
-	{"type-error", `<%= 1 + "a" %>`, false, false},
-	{"index-out-of-range", `<%= one[5] %>`, false, false},
-	{"div-by-zero", `<%= 1 / 0 %>`, false, false},
-	{"assign-unknown", `<% zz = 1 %>`, false, false},
-	{"silent-unknown", `<% nope %>`, false, false},
-	{"let-unknown", `<% let q = nope %>`, false, false},
-	{"unknown-func", `<%= nofn(1) %>`, false, false},
-	{"not-iterable", `<%= for (v) in 5 { %>x<% } %>`, false, false},
-	{"syntax-let", `<% let = 1 %>`, true, false},
-	{"syntax-call", `<%= foo(1 %>`, true, false},
-	{"syntax-if", `<%= if (true { %>x<% } %>`, true, false},
-	{"syntax-prefix", `<%= * 2 %>`, true, false},
-	{"syntax-bracket", `<%= [1, 2 %>`, true, false},
-	{"syntax-hash", `<%= {"a" 1} %>`, true, false},
-	{"big-int", `<%= 99999999999999999999 %>`, true, false},
-	{"bad-float", `<%= 1.5e %>`, true, false},
-	{"illegal-number", `<%= 1.2.3 %>`, true, false},
-	{"break-outside-loop", `<% break %>`, true, false},
-	{"for-missing-paren", `<%= for (v in one { %>x<% } %>`, true, false},
-	{"multiline-unknown", "<%=\n nope\n %>", false, true},
-	{"multiline-type-error", "<%= 1 +\n \"a\"\n %>", false, true},
-	{"unterminated-string", "<%= foo(\"abc\ndef) %>\nmore", true, true},
+	{"unknown-ident", `<%= nope %>`, false, false, 0},
+	{"failing-helper", `<%= fail() %>`, false, false, 0},
+	{"type-error", `<%= 1 + "a" %>`, false, false, 0},
+	{"index-out-of-range", `<%= one[5] %>`, false, false, 0},
+	{"div-by-zero", `<%= 1 / 0 %>`, false, false, 0},
+	{"assign-unknown", `<% zz = 1 %>`, false, false, 0},
+	{"silent-unknown", `<% nope %>`, false, false, 0},
+	{"let-unknown", `<% let q = nope %>`, false, false, 0},
+	{"unknown-func", `<%= nofn(1) %>`, false, false, 0},
+	{"not-iterable", `<%= for (v) in 5 { %>x<% } %>`, false, false, 0},
+	{"syntax-let", `<% let = 1 %>`, true, false, 0},
+	{"syntax-call", `<%= foo(1 %>`, true, false, 0},
+	{"syntax-if", `<%= if (true { %>x<% } %>`, true, false, 0},
+	{"syntax-prefix", `<%= * 2 %>`, true, false, 0},
+	{"syntax-bracket", `<%= [1, 2 %>`, true, false, 0},
+	{"syntax-hash", `<%= {"a" 1} %>`, true, false, 0},
+	{"big-int", `<%= 99999999999999999999 %>`, true, false, 0},
+	{"bad-float", `<%= 1.5e %>`, true, false, 0},
+	{"illegal-number", `<%= 1.2.3 %>`, true, false, 0},
+	{"break-outside-loop", `<% break %>`, true, false, 0},
+	{"for-missing-paren", `<%= for (v in one { %>x<% } %>`, true, false, 0},
+	{"syntax-call-open", `<%= foo( %>`, true, false, 0},
+	{"syntax-call-comma", `<%= foo(1, %>`, true, false, 0},
+	{"syntax-index-open", `<%= one[ %>`, true, false, 0},
+	{"ident-then-newline", "<%= nope\n %>", false, true, 1},
+	{"silent-ident-then-newline", "<% nope\n %>", false, true, 1},
+	{"let-then-newline", "<% let q = nope\n %>", false, true, 1},
+	{"opener-then-newline", "<%=\nnope %>", false, true, 1},
+	{"after-fn-call-in-same-statement", "<% let fq = fn() {\n return 1\n } %>\n<%= fq() + nope %>", false, true, 4},
+	{"after-fn-call-in-array", "<% let fq = fn(a) {\n return a } %>\nb\n<%= fq(1) %><%= [fq(2), nope] %>", false, true, 4},
+	{"after-fn-call-in-helper-arg", "<% let fq = fn() {\n\n return 1 } %><%= fail2(fq()) %>", false, true, 3},
+	{"multiline-unknown", "<%=\n nope\n %>", false, true, 0},
+	{"multiline-type-error", "<%= 1 +\n \"a\"\n %>", false, true, 0},
+	{"unterminated-string", "<%= foo(\"abc\ndef) %>\nmore", true, true, 0},
 }
 
 var c15Wraps = []struct{ name, pre, post string }{
@@ -81,6 +92,7 @@ func c15Context() *plush.Context {
 	c.Set("one", []int{7})
 	c.Set("x", 1)
 	c.Set("fail", func() (string, error) { return "", ErrSentinel })
+	c.Set("fail2", func(i int) (string, error) { return "", ErrSentinel })
 	c.Set("blk", func(help plush.HelperContext) (template.HTML, error) {
 		s, err := help.Block()
 		return template.HTML(s), err
@@ -106,7 +118,7 @@ func init() {
 			return s
 		},
 		Run:  c15Run,
-		Rule: "templates = every sequence of <=3 (4 thorough) preceding items from 14 (text lines, CRLF, single/multi-line tags, # comment lines, multi-line double- and back-quoted strings, multi-line comment tag, output tag, if/for blocks spanning lines, escaped tag) followed by one failing statement of 24 kinds (10 runtime faults, 11 syntax-error families incl. un-parsable numbers and break outside a loop, 2 multi-line failing tags, unterminated string at EOF) at top level or inside if / else / for / fn (called later) / helper block / for+if bodies, followed by trailing text; then shifted by k in {1,2,3} leading newlines. Oracle: (i) error starts with 'line N:'; (ii) N is the 1-based line on which the failing tag begins (within the tag's lines when it spans several / within the string's lines for an unterminated string); (iii) the shifted template's error equals the original with every 'line n:' replaced by 'line n+k:'. Non-trivial: at least one newline precedes the failing tag.",
+		Rule: "templates = every sequence of <=3 (4 thorough) preceding items from 14 (text lines, CRLF, single/multi-line tags, # comment lines, multi-line double- and back-quoted strings, multi-line comment tag, output tag, if/for blocks spanning lines, escaped tag) followed by one failing statement of 34 kinds (10 runtime faults, 14 syntax-error families incl. un-parsable numbers, break outside a loop and argument lists cut by the closing tag, tokens directly followed by a newline, failures after a multi-line user function was called in the same statement, 2 multi-line failing tags, unterminated string at EOF) at top level or inside if / else / for / fn (called later) / helper block / for+if bodies, followed by trailing text; then shifted by k in {1,2,3} leading newlines. Oracle: (i) error starts with 'line N:'; (ii) N is the 1-based line on which the failing tag begins (within the tag's lines when it spans several / within the string's lines for an unterminated string); (iii) the shifted template's error equals the original with every 'line n:' replaced by 'line n+k:'. Non-trivial: at least one newline precedes the failing tag.",
 		Bound: func(th bool) string {
 			if th {
 				return "<=4 preceding items, 7 placements, shifts 1..3"
@@ -170,6 +182,9 @@ func c15One(t *engine.T, fl c15Fail, seq []int) {
 				return "", engine.Failf("no-line-prefix", "error does not start with 'line N:': %q", msg)
 			}
 			n, _ := strconv.Atoi(msg[m[2]:m[3]])
+			if fl.exact > 0 && n != first+fl.exact-1 {
+				return "", engine.Failf("wrong-line", "failing tag begins on line %d, error says %q", first+fl.exact-1, msg)
+			}
 			if n < first || n > last {
 				if fl.multiline {
 					return "", engine.Failf("wrong-line", "failing tag spans lines %d..%d, error says %q", first, last, msg)
